@@ -281,7 +281,38 @@ class Intrinsics:
                 raise SymRaise(mk_exc(type(e).__name__))
         if isinstance(v, SObj):
             return P.call_method(v, '__float__', [], {})
+        if isinstance(v, SymFloat):
+            return v
+        if is_sym_int(v):
+            return self._int_to_float(P, v)
         raise Unsupported(f'float({v!r})')
+
+    def _int_to_float(self, P, i):
+        """float(int) for a symbolic int: the binary64 nearest to i (ties to even), OverflowError when that is not finite.
+        The result is a fresh bit pattern constrained by the rounding relation (for a power-of-two result the relation
+        admits the true value; it is an over-approximation only in which of two adjacent candidates is taken)."""
+        from .interp import SymRaise, mk_exc
+        if P.branch(simp(i == 0), 'float(int): zero'):
+            return SymFloat(z3.IntVal(0))
+        mag = z3.If(i < 0, -i, i)
+        # 2^1024 - 2^970 is the midpoint between the largest double and 2^1024: it rounds (to even) out of range
+        if P.branch(simp(mag >= (1 << 1024) - (1 << 970)), 'float(int): overflow'):
+            raise SymRaise(mk_exc('OverflowError'), 'int too large to convert to float')
+        b = z3.Int(P.fresh_name('i2f'))
+        r = SymFloat(b)
+        sg, E, c, exp = self._fdecode(r)
+        P.assume(z3.And(b >= 0, b < (1 << 64), sg == z3.If(i < 0, 1, 0), E >= 1023, E <= 2046), fact=True)
+        if P.branch(simp(exp <= 0), 'float(int): exact'):
+            P.assume(mag * theory.pow2(-exp) == c, fact=True)
+        else:
+            q = c * theory.pow2(exp)
+            h = theory.pow2(exp - 1)
+            d = mag - q
+            P.assume(z3.And(d <= h, -d <= h,
+                            z3.Implies(z3.Or(d == h, -d == h), c % 2 == 0),
+                            # below a power of two the spacing halves
+                            z3.Implies(c == (1 << 52), -4 * d <= theory.pow2(exp))), fact=True)
+        return r
 
     def b_str(self, P, v=''):
         if isinstance(v, str):
